@@ -5,48 +5,50 @@ func init() {
 		Explanation: "Decides necessary conditions of store/memory agreement on every path of every IPAM mutator: (R1) each in-memory mutation (table write, syncCacheAfter*, Assign on a table-resident object; sites computed by the lockset engine as W-accesses of cacheLock state) is reachable only through the err==nil edge of a store call and unreachable from any err!=nil edge; (R2) the multi-IP allocator rolls created objects back in a loop, returns a non-nil error, inserts into memory only after all creates and creates nothing before 'not enough ips'; (R3) ConfigurePool lists the store with cacheLock held in W; (R4) the FloatingIPSpec/Attr fields written by assign are exactly those restored by ConfigurePool/unmarshalAttr; (R5) a failed decode or failed ConfigurePool leaves the remembered configuration untouched. (R12) Bind queues a release event only for a pod that no longer exists (NotFound), never for a Conflict answer of an already bound pod; (R13) from the success edge of every createFloatingIP no nil-error return is reachable without syncCacheAfterCreate. Does not decide crash-at-any-point + restart + resync behaviour, nor agreement after a failed second store call inside a per-IP loop beyond per-iteration ordering.",
 		Assumptions: []string{"paths are CFG paths (no feasibility reasoning)", "store = the generated FloatingIPInterface client reached through create/update/deleteFloatingIP"},
 		Run: func(c *Ctx) {
-			c.Rule("C05.R1", "store first, memory after, in every mutator (8 mutators)", 16)
+			c.Rule("C05.R1", "store first, memory after, in every mutator (8 mutators)", 8)
 			ruleStoreFirst(c, "C05.R1")
-			c.Rule("C05.R2", "multi-IP rollback / memory after all creates / nothing created before ErrNoEnoughIP", 3)
+			c.Rule("C05.R2", "multi-IP rollback / memory after all creates / nothing created before ErrNoEnoughIP", 1)
 			ruleMultiIPAllOrNothing(c, "C05.R2")
 			c.Rule("C05.R3", "reload snapshot (store List) taken inside the cacheLock critical section", 1)
 			ruleListUnderLock(c, "C05.R3")
-			c.Rule("C05.R11", "store clone and memory update carry the same values", 3)
+			c.Rule("C05.R11", "store clone and memory update carry the same values", 1)
 			ruleCloneMatchesAssign(c, "C05.R11")
-			c.Rule("C05.R4", "persisted fields = restored fields (FloatingIPSpec, Attr)", 3)
+			c.Rule("C05.R4", "persisted fields = restored fields (FloatingIPSpec, Attr)", 1)
 			rulePersistRestoreAgree(c, "C05.R4")
-			c.Rule("C05.R5", "reload is all-or-nothing at the caller", 2)
+			c.Rule("C05.R5", "reload is all-or-nothing at the caller", 1)
 			ruleReloadAllOrNothing(c, "C05.R5")
-			c.Rule("C05.R6", "lookup, store write and memory update in one critical section", 12)
+			c.Rule("C05.R6", "lookup, store write and memory update in one critical section", 7)
 			ruleOneCriticalSection(c, "C05.R6")
 			c.Rule("C05.R9", "no error of the ipam / store / provider layer is silently dropped in galaxy-ipam", 60)
 			ruleNoDroppedErrors(c, "C05.R9", []string{"pkg/ipam/floatingip", "pkg/ipam/schedulerplugin", "pkg/ipam/api"}, droppedErrExceptions)
-			c.Rule("C05.R10", "UpdateAttr persists on every successful return", 2)
+			c.Rule("C05.R10", "UpdateAttr persists on every successful return", 1)
 			ruleUpdateAttrAlwaysWrites(c, "C05.R10")
-			c.Rule("C05.R12", "release events are queued only for pods that are gone (a bound pod keeps its ip across a crash-and-retry of bind)", 4)
+			c.Rule("C05.R12", "release events are queued only for pods that are gone (a bound pod keeps its ip across a crash-and-retry of bind)", 2)
 			ruleReleaseEventsQueued(c, "C05.R12")
-			c.Rule("C05.R13", "a successful store create is always followed by the cache update", 3)
+			c.Rule("C05.R13", "a successful store create is always followed by the cache update", 1)
 			ruleCreateThenCache(c, "C05.R13")
-			c.Rule("C05.R7", "an IP enters the allocated table only after the Create of that object succeeded (per object)", 3)
+			c.Rule("C05.R14", "the object written to the store went through assign()", 2)
+			ruleStoreWritesAssigned(c, "C05.R14")
+			c.Rule("C05.R7", "an IP enters the allocated table only after the Create of that object succeeded (per object)", 1)
 			ruleCreateBeforeCache(c, "C05.R7")
-			c.Rule("C05.R8", "errors of the store client are returned by the store wrappers", 5)
+			c.Rule("C05.R8", "errors of the store client are returned by the store wrappers", 2)
 			ruleStoreErrorsPropagate(c, "C05.R8")
 		}})
 	register(&propDef{ID: "C08", Title: "Multi-IP requests get one IP per range, all or nothing",
 		Explanation: "Decides: (R1-R3 = C05.R2) rollback loop + non-nil error on a failed create, memory only after all creates, ErrNoEnoughIP unreachable after a create; (R4) a candidate is picked only if it is in the unallocated table, its pool lists the node subnet, and it was not chosen for an earlier range; (R5) in Bind the pod is bound only after allocateIP succeeded. (R9) the rollback loop reaches index 0 (ascending from 0 or descending while j >= 0), and a reload attaches a stored ip to the pool whose ranges contain it. Does not decide 'i-th IP in i-th range', result order, or partially pre-owned ranges (index arithmetic over runtime slices).",
 		Assumptions: []string{"paths are CFG paths"},
 		Run: func(c *Ctx) {
-			c.Rule("C08.R1", "multi-IP rollback / memory after all creates / nothing created before ErrNoEnoughIP", 3)
+			c.Rule("C08.R1", "multi-IP rollback / memory after all creates / nothing created before ErrNoEnoughIP", 1)
 			ruleMultiIPAllOrNothing(c, "C08.R1")
-			c.Rule("C08.R4", "candidate guards in the range walk callback", 3)
+			c.Rule("C08.R4", "candidate guards in the range walk callback", 1)
 			ruleCandidateGuards(c, "C08.R4")
-			c.Rule("C08.R6", "reported ips are the lookup for the full request, in its order", 3)
+			c.Rule("C08.R6", "reported ips are the lookup for the full request, in its order", 1)
 			ruleReportedInRequestOrder(c, "C08.R6")
-			c.Rule("C08.R7", "a store failure is a failure: errors of the store client are returned; memory is touched only after a successful store call; created objects are fresh copies of unallocated entries", 20)
+			c.Rule("C08.R7", "a store failure is a failure: errors of the store client are returned; memory is touched only after a successful store call; created objects are fresh copies of unallocated entries", 13)
 			ruleStoreErrorsPropagate(c, "C08.R7")
 			ruleStoreFirst(c, "C08.R7")
 			ruleOnlyUnallocatedCreated(c, "C08.R7")
-			c.Rule("C08.R9", "the rollback covers the first created object; a reload attaches stored ips to the pool whose ranges contain them", 2)
+			c.Rule("C08.R9", "the rollback covers the first created object; a reload attaches stored ips to the pool whose ranges contain them", 1)
 			ruleRollbackCoversFirst(c, "C08.R9")
 			ruleReloadPoolMatch(c, "C08.R9")
 			c.Rule("C08.R5", "no bind after a failed allocation", 1)
@@ -56,29 +58,29 @@ func init() {
 		Explanation: "Decides: (R1) every object given to createFloatingIP is built by New from an entry read out of unallocatedFIPs (reserved objects live in allocatedFIPs, de-configured addresses in neither table); (R2 = C05.R3) the reload snapshot is taken inside the cacheLock critical section, so an allocation made while a reload is in progress is either in the snapshot or waits for the lock; (R3) the reservation watch handlers move only what they found, behind the reserved-label filter; (R4) reload queues for deletion only objects that no configured pool contains. (R11) a successful store create is always followed by the cache update, also when a reload replaced the tables in between. Does not decide 'drops exactly the others' as a set equality nor the reservation-vs-watch race beyond the store conflict (C01.R3).",
 		Assumptions: []string{"paths are CFG paths"},
 		Run: func(c *Ctx) {
-			c.Rule("C09.R1", "only unallocated entries are created", 3)
+			c.Rule("C09.R1", "only unallocated entries are created", 2)
 			ruleOnlyUnallocatedCreated(c, "C09.R1")
 			c.Rule("C09.R2", "reload snapshot inside the critical section", 1)
 			ruleListUnderLock(c, "C09.R2")
-			c.Rule("C09.R3", "reservation handlers guarded", 6)
+			c.Rule("C09.R3", "reservation handlers guarded", 3)
 			ruleReservationHandlers(c, "C09.R3")
-			c.Rule("C09.R4", "reload deletes only objects outside every configured pool", 3)
+			c.Rule("C09.R4", "reload deletes only objects outside every configured pool", 1)
 			ruleReloadDeletesOnlyForeign(c, "C09.R4")
-			c.Rule("C09.R8", "objects collected for the cache insert / rollback are exactly those this call created (a colliding reserved object is never touched)", 4)
+			c.Rule("C09.R8", "objects collected for the cache insert / rollback are exactly those this call created (a colliding reserved object is never touched)", 3)
 			ruleCreateBeforeCache(c, "C09.R8")
 			ruleMultiIPAllOrNothing(c, "C09.R8")
-			c.Rule("C09.R9", "a failed reload is retried: the configuration is remembered only after ConfigurePool succeeded", 2)
+			c.Rule("C09.R9", "a failed reload is retried: the configuration is remembered only after ConfigurePool succeeded", 1)
 			ruleReloadAllOrNothing(c, "C09.R9")
-			c.Rule("C09.R10", "table entries move only through the paired helpers (a reserved ip is not left in the free table)", 6)
+			c.Rule("C09.R10", "table entries move only through the paired helpers (a reserved ip is not left in the free table)", 3)
 			ruleTablesOnlyThroughHelpers(c, "C09.R10")
-			c.Rule("C09.R11", "a successful store create is always followed by the cache update (also when a reload ran in between)", 3)
+			c.Rule("C09.R11", "a successful store create is always followed by the cache update (also when a reload ran in between)", 1)
 			ruleCreateThenCache(c, "C09.R11")
-			c.Rule("C09.R5", "a store Create conflict (IP reserved but not yet seen) is returned, never absorbed", 5)
+			c.Rule("C09.R5", "a store Create conflict (IP reserved but not yet seen) is returned, never absorbed", 2)
 			ruleStoreErrorsPropagate(c, "C09.R5")
-			c.Rule("C09.R6", "mutators keep lookup, store write and memory update in one critical section (a concurrent reload cannot interleave)", 12)
+			c.Rule("C09.R6", "mutators keep lookup, store write and memory update in one critical section (a concurrent reload cannot interleave)", 7)
 			ruleOneCriticalSection(c, "C09.R6")
-			c.Rule("C09.R7", "tables only under the cache lock", 35)
-			ruleGuardedBy(c, "C09.R7", []string{cacheLockID}, 40)
+			c.Rule("C09.R7", "tables only under the cache lock", 21)
+			ruleGuardedBy(c, "C09.R7", []string{cacheLockID}, 15)
 		}})
 }
 
